@@ -2,7 +2,7 @@ import Zrnt.Beacon.Ctx
 /-! Lemmas for C08: what an epoch may write to the inputs of shufflings and seeds (`EpochWrites`), and the
 stability of active sets and seeds under such writes. -/
 namespace Zrnt.Proofs.Ctx
-open Zrnt.Beacon Zrnt.Beacon.Spec Zrnt.Beacon.Ctx
+open Zrnt Zrnt.Beacon Zrnt.Beacon.Spec Zrnt.Beacon.Ctx
 
 /-- One registry field (activation or exit epoch) may only be written, during epoch `N`, from "never" to an
 epoch at or after `compute_activation_exit_epoch(N) = N + 1 + MAX_SEED_LOOKAHEAD`. -/
@@ -303,46 +303,38 @@ theorem ctxOf_with_sync {cfg : Config} {pre : State} {c : Ctx} (hc : ctxOf cfg p
 def EffAgree (vs vs' : List Validator) (indices : List Nat) : Prop :=
   ∀ i ∈ indices, (vs'[i]?).map (·.effective_balance) = (vs[i]?).map (·.effective_balance)
 
-theorem proposer_loop_congr {vs vs' : List Validator} {indices : List Nat} (h : EffAgree vs vs' indices)
-    (seed : Bytes) (total : Nat) : ∀ fuel i,
-    compute_proposer_index.loop cfg vs' indices seed total fuel i =
-      compute_proposer_index.loop cfg vs indices seed total fuel i := by
-  intro fuel
-  induction fuel with
-  | zero => intro i; simp [compute_proposer_index.loop]
-  | succ fuel ih =>
-    intro i
-    simp only [compute_proposer_index.loop, bind, Except.bind]
-    cases hk : compute_shuffled_index cfg (i % total) total seed with
-    | error e => rfl
-    | ok k =>
-      simp only []
-      unfold idx
-      cases hc : indices[k]? with
+/-- the sampling step of the specification reads a registry only through the effective balances of the candidates -/
+theorem candidate_congr {vs vs' : List Validator} {indices : List Nat} (h : EffAgree vs vs' indices) (seed : Bytes) (i : Nat) :
+    Committees.Spec.candidate Spec.hash (cfgC cfg) (vs'.map valC) indices seed i =
+      Committees.Spec.candidate Spec.hash (cfgC cfg) (vs.map valC) indices seed i := by
+  unfold Committees.Spec.candidate
+  simp only
+  split
+  · rfl
+  · split
+    · rfl
+    · rename_i s hs
+      cases hc : indices[s]? with
       | none => rfl
       | some cand =>
-        simp only [pure, Except.pure]
-        have hmem : cand ∈ indices := List.mem_of_getElem? hc
-        have := h cand hmem
-        cases h1 : vs[cand]? with
-        | none =>
-          rw [h1] at this
-          cases h2 : vs'[cand]? with
-          | none => rfl
-          | some v' => rw [h2] at this; simp at this
-        | some v =>
-          rw [h1] at this
-          cases h2 : vs'[cand]? with
-          | none => rw [h2] at this; simp at this
-          | some v' =>
-            rw [h2] at this
-            simp only [Option.map_some, Option.some.injEq] at this
-            simp only [this, ih]
+        have := h cand (List.mem_of_getElem? hc)
+        simp only [List.getElem?_map]
+        cases h1 : vs[cand]? <;> cases h2 : vs'[cand]? <;> simp_all [valC]
+
+theorem proposer_loop_congr {vs vs' : List Validator} {indices : List Nat} (h : EffAgree vs vs' indices) (seed : Bytes) :
+    ∀ fuel i, Committees.Spec.compute_proposer_index Spec.hash (cfgC cfg) (vs'.map valC) indices seed fuel i =
+      Committees.Spec.compute_proposer_index Spec.hash (cfgC cfg) (vs.map valC) indices seed fuel i := by
+  intro fuel
+  induction fuel with
+  | zero => intro i; rfl
+  | succ fuel ih =>
+    intro i
+    simp only [Committees.Spec.compute_proposer_index, candidate_congr h, ih]
 
 theorem compute_proposer_index_congr {vs vs' : List Validator} {indices : List Nat} (h : EffAgree vs vs' indices)
     (seed : Bytes) : compute_proposer_index cfg vs' indices seed = compute_proposer_index cfg vs indices seed := by
   unfold compute_proposer_index
-  simp only [proposer_loop_congr h]
+  rw [proposer_loop_congr h]
 
 theorem active_lt {st : State} {e i : Nat} (h : i ∈ get_active_validator_indices st e) : i < st.validators.length := by
   rw [get_active_eq] at h
@@ -495,37 +487,46 @@ theorem block_eq_ctxOf_aux {N : Nat} {st st1 : State} {c : Ctx} (old news : List
 
 /-! ### where the indices held by a context come from -/
 
-theorem proposer_loop_mem {vs : List Validator} {indices : List Nat} {seed : Bytes} {total : Nat} :
-    ∀ fuel i r, compute_proposer_index.loop cfg vs indices seed total fuel i = .ok r → r ∈ indices := by
-  intro fuel
-  induction fuel with
-  | zero => intro i r h; simp [compute_proposer_index.loop, throw, throwThe, MonadExceptOf.throw] at h
-  | succ fuel ih =>
-    intro i r h
-    simp only [compute_proposer_index.loop, bind, Except.bind] at h
-    split at h
-    · cases h
-    · rename_i k hk
-      unfold idx at h
-      cases hc : indices[k]? with
-      | none => simp [hc, invalid, throw, throwThe, MonadExceptOf.throw] at h
-      | some cand =>
-        simp only [hc, pure, Except.pure] at h
-        cases hv : vs[cand]? with
-        | none => simp [hv, invalid, throw, throwThe, MonadExceptOf.throw] at h
-        | some v =>
-          simp only [hv] at h
-          split at h
-          · cases h; exact List.mem_of_getElem? hc
-          · exact ih _ _ h
-
-theorem compute_proposer_index_mem {vs : List Validator} {indices : List Nat} {seed : Bytes} {r : Nat}
-    (h : compute_proposer_index cfg vs indices seed = .ok r) : r ∈ indices := by
-  unfold compute_proposer_index at h
-  simp only [bind, Except.bind, require] at h
+theorem candidate_mem {vs : List Committees.Val} {indices : List Nat} {seed : Bytes} {i c : Nat} {b : Bool}
+    (h : Committees.Spec.candidate Spec.hash (cfgC cfg) vs indices seed i = .ok (c, b)) : c ∈ indices := by
+  unfold Committees.Spec.candidate at h
+  simp only at h
   split at h
   · cases h
-  · exact proposer_loop_mem _ _ _ h
+  · split at h
+    · cases h
+    · rename_i s hs
+      split at h
+      · cases h
+      · rename_i ci hci
+        split at h
+        · cases h
+        · cases h; exact List.mem_of_getElem? hci
+
+theorem proposer_loop_mem {vs : List Committees.Val} {indices : List Nat} {seed : Bytes} :
+    ∀ fuel i r, Committees.Spec.compute_proposer_index Spec.hash (cfgC cfg) vs indices seed fuel i = .ok r → r ∈ indices := by
+  intro fuel
+  induction fuel with
+  | zero => intro i r h; cases h
+  | succ fuel ih =>
+    intro i r h
+    simp only [Committees.Spec.compute_proposer_index] at h
+    split at h
+    · cases h
+    · split at h
+      · rename_i c hc; cases h; exact candidate_mem hc
+      · exact ih _ _ h
+      · cases h
+      · cases h
+      · cases h
+
+theorem liftRes_ok {α : Type} {r : Res α} {a : α} (h : liftRes r = .ok a) : r = .ok a := by
+  cases r <;> simp [liftRes, pure, Except.pure, invalid, throw, throwThe, MonadExceptOf.throw] at h
+  rw [h]
+
+theorem compute_proposer_index_mem {vs : List Validator} {indices : List Nat} {seed : Bytes} {r : Nat}
+    (h : compute_proposer_index cfg vs indices seed = .ok r) : r ∈ indices :=
+  proposer_loop_mem _ _ _ (liftRes_ok h)
 
 theorem mapM_ok_forall {α β : Type} {f : α → SM β} {P : β → Prop} : ∀ (l : List α) (out : List β),
     (∀ x ∈ l, ∀ y, f x = .ok y → P y) → l.mapM f = .ok out → ∀ y ∈ out, P y := by
